@@ -389,6 +389,7 @@ func compatCmd(a Args) {
 	enumDisplayMatrix(s)
 	oneOfDiscMatrix(s)
 	refNameMatrix(s)
+	kindMatrix(s)
 	for i := 0; i < n/20+2; i++ {
 		recursiveGroup(s, g)
 	}
@@ -946,6 +947,65 @@ func refNameMatrix(s *compatSink) {
 				if withRefs.R != inlined.R {
 					s.finding(Finding{Prop: "C14", What: "schema-versus-schema compatibility differs between the tree with references and the tree with the references inlined (inner scope shadowing an outer object)",
 						Cases: []int{idR, idI}, Schema: nested(so, si, true), Detail: []string{fmt.Sprintf("shapes %d/%d vs %d", i, j, k), withRefs.JSON(), inlined.JSON()}})
+				}
+			}
+		}
+	}
+}
+
+// kindMatrix: every ordered pair of schema kinds (one simple instance of each), bare and below an
+// object property, a list and a map: the verdict is the model's (proved kind-sound); a panic or an
+// accepted pair of different base kinds is reported directly.
+func kindMatrix(s *compatSink) {
+	obj := func(id string) *hx.Ty {
+		return &hx.Ty{T: "obj", ID: id, Props: []hx.NamedProp{{Name: "x", P: &hx.Prop{Ty: &hx.Ty{T: "int"}}}}}
+	}
+	kinds := []struct {
+		name string
+		base string
+		mk   func() *hx.Ty
+	}{
+		{"int", "int", func() *hx.Ty { return &hx.Ty{T: "int"} }},
+		{"float", "float", func() *hx.Ty { return &hx.Ty{T: "float"} }},
+		{"string", "str", func() *hx.Ty { return &hx.Ty{T: "str"} }},
+		{"bool", "bool", func() *hx.Ty { return &hx.Ty{T: "bool"} }},
+		{"pattern", "pattern", func() *hx.Ty { return &hx.Ty{T: "pattern"} }},
+		{"enum-string", "str", func() *hx.Ty { return &hx.Ty{T: "enumStr", Vals: []string{"a", "b"}} }},
+		{"enum-int", "int", func() *hx.Ty { return &hx.Ty{T: "enumInt", Vals: []string{"1", "2"}} }},
+		{"list", "list", func() *hx.Ty { return &hx.Ty{T: "list", Item: &hx.Ty{T: "str"}} }},
+		{"map", "map", func() *hx.Ty { return &hx.Ty{T: "map", K: &hx.Ty{T: "str"}, V: &hx.Ty{T: "int"}} }},
+		{"object", "obj", func() *hx.Ty { return obj("O") }},
+		{"one-of-string", "oneOfS", func() *hx.Ty {
+			return &hx.Ty{T: "oneOf", Disc: "kind", Members: []hx.Member{{Key: "a", Ty: obj("MA")}, {Key: "b", Ty: obj("MB")}}}
+		}},
+		{"one-of-int", "oneOfI", func() *hx.Ty {
+			return &hx.Ty{T: "oneOf", IntKey: true, Disc: "kind", Members: []hx.Member{{Key: "0", Ty: obj("MA")}, {Key: "1", Ty: obj("MB")}}}
+		}},
+		{"any", "any", func() *hx.Ty { return &hx.Ty{T: "any"} }},
+	}
+	embed := []struct {
+		name string
+		f    func(*hx.Ty) *hx.Ty
+	}{
+		{"bare", func(t *hx.Ty) *hx.Ty { return t }},
+		{"property", func(t *hx.Ty) *hx.Ty {
+			return &hx.Ty{T: "obj", ID: "E", Props: []hx.NamedProp{{Name: "e", P: &hx.Prop{Ty: t}}}}
+		}},
+		{"list item", func(t *hx.Ty) *hx.Ty { return &hx.Ty{T: "list", Item: t} }},
+		{"map value", func(t *hx.Ty) *hx.Ty { return &hx.Ty{T: "map", K: &hx.Ty{T: "str"}, V: t} }},
+	}
+	for _, c := range kinds {
+		for _, p := range kinds {
+			for _, em := range embed {
+				r, id := s.emitCompat(em.f(c.mk()), em.f(p.mk()), "kinds", false)
+				s.stats["kinds:"+r.R]++
+				switch {
+				case r.R == "panic":
+					s.finding(Finding{Prop: "C15", What: "ValidateCompatibility panicked (" + c.name + " <- " + p.name + ", " + em.name + "): " + r.Msg, Cases: []int{id}})
+				case r.R == "ok" && c.base != p.base && c.name != "any":
+					s.finding(Finding{Prop: "C15", What: "a schema of another base kind was accepted: consumer " + c.name + " <- producer " + p.name + " (" + em.name + ")", Cases: []int{id}})
+				case r.R != "ok" && c.name == p.name:
+					s.finding(Finding{Prop: "C15", What: "a schema is not compatible with an identical one: " + c.name + " (" + em.name + "): " + r.Msg, Cases: []int{id}})
 				}
 			}
 		}
